@@ -109,6 +109,12 @@ impl SwiftField for Field55B {
             line_idx = 1;
         }
 
+        if lines.len() > line_idx + 1 {
+            return Err(ParseError::InvalidFormat {
+                message: "Field55B has no line after the location".to_string(),
+            });
+        }
+
         // Remaining line is location
         if line_idx < lines.len() && !lines[line_idx].is_empty() {
             location = Some(parse_max_length(lines[line_idx], 35, "Field55B location")?);
